@@ -56,7 +56,7 @@ func init() {
 
 var hdrNames = []string{"X-K", "X-Ver", "Accept", "x-k", "Content-Type", "X-K", "x-ver", "ACCEPT"}
 var hdrExprs = []string{"", "^v[0-9]$", "json", "^(a|b)$", "Chrome", "^$", "1"}
-var hdrValues = []string{"", "v1", "v22", "application/json", "a", "b", "Chrome/1", "zz", " v1", "v1 ", "\ta", "b\n", " "}
+var hdrValues = []string{"", "v1", "v22", "application/json", "a", "b", "Chrome/1", "zz", " v1", "v1 ", "\ta", "b\n", " ", "zz, v1", "v1,zz", "x,a", "a, b", "text/html, application/json", "v1;q=1", "a|b"}
 
 func genPairs(rng *rand.Rand) []string {
 	n := rng.Intn(3)
